@@ -78,3 +78,10 @@ package server
 //@   requires registry: s.handlers != nil
 //@   assigns lock(&s.mu), mapof(s.handlers)
 //@   ensures registered_as_raw: [C05] has(s.handlers, command) && s.handlers[command].raw && s.handlers[command].fn == fn
+
+// the commands advertised to a session are ones it could run right now: not raw, with permission levels, whose security
+// level this session meets, and authorized at one of the command's own levels for this peer and mapped identity
+//@ func (*Server).postAuthPolicy (s, authUser, peerAddr, authenticated, encrypted) (identity, commands)
+//@   props C05
+//@   assert before call funcfield:server.Server.Authorizer advertised_only_if_runnable_now: [C05] !h.raw && len(h.perms) > 0 && levelOK(s, cmd, authenticated, encrypted) && arg2 == peerAddr && arg3 == fqu
+//@   ensures lock_balanced: held(&s.mu) == old(held(&s.mu)) && rcount(&s.mu) == old(rcount(&s.mu))
